@@ -124,8 +124,15 @@ theorem dispAttractive_eq_some {K p s q dE d : ℝ} (h : dispAttractive K p s q 
       d = cd + (s' + Real.sqrt ((K / (pot K p (s' * s' + q) + dE)) ^ (2 / p) - q)) := by
   intro cd s'
   simp only [dispAttractive] at h
-  split_ifs at h with h1
-  exact ⟨not_le.1 h1, (Option.some.inj h).symm⟩
+  by_cases hs : 0 < s
+  · simp only [hs, if_true] at h
+    split_ifs at h with h1
+    simp only [cd, s', hs, if_true]
+    exact ⟨not_le.1 h1, (Option.some.inj h).symm⟩
+  · simp only [hs, if_false] at h
+    split_ifs at h with h1
+    simp only [cd, s', hs, if_false]
+    exact ⟨not_le.1 h1, (Option.some.inj h).symm⟩
 
 /-- facts about the radius the code solves for (attractive case), from the position `s'` reached
 after the downhill stretch -/
@@ -262,6 +269,155 @@ theorem invPow_none_iff {K p s q dE : ℝ} (hK : K ≠ 0) (hp : 0 < p) (hq : 0 <
   split_ifs with h1
   · exact repulsive_none_iff h1 hp hq hE.le
   · exact attractive_none_iff (lt_of_le_of_ne (not_lt.1 h1) hK) hp hq hE
+
+
+/-! ## Hard sphere: the returned time is the first time of contact -/
+
+theorem sqrt_disc_le {a b c : ℝ} (ha : 0 < a) (hc : 0 ≤ c) (hb : 0 ≤ b) :
+    Real.sqrt (b * b - a * c) ≤ b := by
+  rw [show b = Real.sqrt (b * b) from (Real.sqrt_mul_self hb).symm]
+  apply Real.sqrt_le_sqrt
+  rw [Real.sqrt_mul_self hb]; nlinarith
+
+/-- **Hard sphere: the returned time is the least root of the contact equation.**  For spheres that do
+not overlap (`c = |s|² - σ² ≥ 0`): the returned `t` is non-negative, the centres are at distance `σ`
+at time `t` (`gap = 0`), and at every earlier time they are strictly further apart. -/
+theorem hardSphere_some {a b c t : ℝ} (ha : 0 < a) (hc : 0 ≤ c) (h : hardSphere a b c = some t) :
+    0 ≤ t ∧ gap a b c t = 0 ∧ ∀ t', t' < t → 0 < gap a b c t' := by
+  simp only [hardSphere] at h
+  split_ifs at h with h1
+  obtain ⟨hD, hb⟩ := h1
+  have ht : t = (b - Real.sqrt (b * b - a * c)) / a := (Option.some.inj h).symm
+  have hle := sqrt_disc_le ha hc hb
+  have hr := Real.sqrt_nonneg (b * b - a * c)
+  refine ⟨by rw [ht]; exact div_nonneg (by linarith) ha.le, by rw [ht]; exact gap_root_minus ha hD, ?_⟩
+  intro t' ht'
+  rw [gap_factor ha hD t']
+  have h1 : t' - (b - Real.sqrt (b * b - a * c)) / a < 0 := by rw [← ht]; linarith
+  have h2 : t' - (b + Real.sqrt (b * b - a * c)) / a < 0 := by
+    have : (b - Real.sqrt (b * b - a * c)) / a ≤ (b + Real.sqrt (b * b - a * c)) / a :=
+      div_le_div_of_nonneg_right (by linarith) ha.le
+    rw [← ht] at this; linarith
+  have := mul_pos_of_neg_of_neg h1 h2
+  nlinarith
+
+/-- **Hard sphere: `inf` exactly when there is no contact at any time `t ≥ 0`** (separated spheres,
+`c > 0`). -/
+theorem hardSphere_none_iff {a b c : ℝ} (ha : 0 < a) (hc : 0 < c) :
+    hardSphere a b c = none ↔ ∀ t, 0 ≤ t → 0 < gap a b c t := by
+  constructor
+  · intro h t ht
+    simp only [hardSphere] at h
+    split_ifs at h with h1
+    rw [not_and_or] at h1
+    rcases h1 with h1 | h1
+    · exact gap_pos_of_disc_neg ha (not_le.1 h1) t
+    · unfold gap; nlinarith [mul_nonneg ha.le (mul_self_nonneg t), mul_nonneg ht (neg_pos.2 (not_le.1 h1)).le]
+  · intro h
+    by_contra hne
+    obtain ⟨t, ht⟩ := Option.ne_none_iff_exists'.1 hne
+    obtain ⟨h0, h1, _⟩ := hardSphere_some ha hc.le ht
+    have := h t h0
+    linarith
+
+/-- the time scales inversely with the speed: velocity `λ v` gives `a ↦ λ² a`, `b ↦ λ b` -/
+theorem hardSphere_speed {a b c l : ℝ} (hl : 0 < l) :
+    hardSphere (l * l * a) (l * b) c = (hardSphere a b c).map (· / l) := by
+  simp only [hardSphere]
+  have e : l * b * (l * b) - l * l * a * c = l * l * (b * b - a * c) := by ring
+  have hll : 0 < l * l := by positivity
+  have c1 : (l * b * (l * b) - l * l * a * c ≥ 0 ∧ l * b ≥ 0) ↔ (b * b - a * c ≥ 0 ∧ b ≥ 0) := by
+    rw [e]
+    constructor
+    · rintro ⟨h1, h2⟩; exact ⟨by nlinarith, by nlinarith⟩
+    · rintro ⟨h1, h2⟩; exact ⟨by positivity, by positivity⟩
+  by_cases h : b * b - a * c ≥ 0 ∧ b ≥ 0
+  · rw [if_pos (c1.2 h), if_pos h, Option.map_some, e,
+      Real.sqrt_mul' _ h.1, Real.sqrt_mul_self hl.le]
+    congr 1
+    by_cases ha : a = 0
+    · simp [ha]
+    · field_simp
+  · rw [if_neg (fun h' => h (c1.1 h')), if_neg h, Option.map_none]
+
+/-- non-vacuity: unit speed along `x`, centres 3 apart, `σ² = 1`: contact after time 2 -/
+example : hardSphere 1 3 8 = some 2 := by
+  simp only [hardSphere]
+  have : Real.sqrt ((3:ℝ) * 3 - 1 * 8) = 1 := by norm_num
+  rw [if_pos (by norm_num), this]; norm_num
+
+/-! ## Hard dipole: first of (contact at the minimal, arrival at the maximal separation) -/
+
+/-- **Hard dipole: the returned time is the first event.**  Inside the bond annulus
+(`cmin = |s|² - r_min² ≥ 0`, `cmax = |s|² - r_max² ≤ 0`) the returned `t` is non-negative, at time `t`
+the separation is `r_min` or `r_max`, and at every time in `[0, t]` the pair is still inside the
+annulus (not closer than `r_min`, not further than `r_max`). -/
+theorem hardDipole_first {a b cmin cmax : ℝ} (ha : 0 < a) (hmin : 0 ≤ cmin) (hmax : cmax ≤ 0) :
+    let t := hardDipole a b cmin cmax
+    0 ≤ t ∧ (gap a b cmin t = 0 ∨ gap a b cmax t = 0) ∧
+      ∀ t', 0 ≤ t' → t' ≤ t → 0 ≤ gap a b cmin t' ∧ gap a b cmax t' ≤ 0 := by
+  intro t
+  have hDmax : 0 ≤ b * b - a * cmax := by nlinarith [mul_self_nonneg b]
+  by_cases h : b ≥ 0 ∧ b * b - a * cmin ≥ 0
+  · -- contact at the minimal separation
+    have ht : t = (b - Real.sqrt (b * b - a * cmin)) / a := by simp only [t, hardDipole, if_pos h]
+    obtain ⟨hb, hD⟩ := h
+    have hs : hardSphere a b cmin = some t := by simp only [hardSphere, if_pos (And.intro hD hb), ht]
+    obtain ⟨h0, h1, h2⟩ := hardSphere_some ha hmin hs
+    refine ⟨h0, Or.inl h1, fun t' h0' hle => ⟨?_, ?_⟩⟩
+    · rcases eq_or_lt_of_le hle with e | e
+      · rw [e, h1]
+      · exact (h2 t' e).le
+    · -- convexity: `gap(·, cmax) ≤ 0` at `0` and at `t`
+      have g0 : gap a b cmax 0 ≤ 0 := by unfold gap; linarith
+      have gt : gap a b cmax t ≤ 0 := by
+        have : gap a b cmax t = gap a b cmin t + (cmax - cmin) := by unfold gap; ring
+        rw [this, h1]; linarith
+      rcases eq_or_lt_of_le h0 with e | e
+      · have : t' = 0 := le_antisymm (by rw [e]; exact hle) h0'
+        rw [this]; exact g0
+      · have key : t * gap a b cmax t' =
+            (t - t') * gap a b cmax 0 + t' * gap a b cmax t - a * t' * (t - t') * t := by
+          unfold gap; ring
+        have p1 : (t - t') * gap a b cmax 0 ≤ 0 := mul_nonpos_of_nonneg_of_nonpos (sub_nonneg.2 hle) g0
+        have p2 : t' * gap a b cmax t ≤ 0 := mul_nonpos_of_nonneg_of_nonpos h0' gt
+        have p3 : 0 ≤ a * t' * (t - t') * t :=
+          mul_nonneg (mul_nonneg (mul_nonneg ha.le h0') (sub_nonneg.2 hle)) e.le
+        have : t * gap a b cmax t' ≤ 0 := by rw [key]; linarith
+        by_contra hpos
+        have := mul_pos e (not_le.1 hpos)
+        linarith
+  · -- arrival at the maximal separation
+    have ht : t = (b + Real.sqrt (b * b - a * cmax)) / a := by simp only [t, hardDipole, if_neg h]
+    have hr := Real.sqrt_nonneg (b * b - a * cmax)
+    have hrb : |b| ≤ Real.sqrt (b * b - a * cmax) := by
+      rw [← Real.sqrt_mul_self (abs_nonneg b), abs_mul_abs_self]
+      exact Real.sqrt_le_sqrt (by nlinarith)
+    have hb1 := neg_abs_le b
+    have hb2 := le_abs_self b
+    have h0 : 0 ≤ t := by rw [ht]; exact div_nonneg (by linarith) ha.le
+    have hroot : gap a b cmax t = 0 := by rw [ht]; exact gap_root_plus ha hDmax
+    refine ⟨h0, Or.inr hroot, fun t' h0' hle => ⟨?_, ?_⟩⟩
+    · rw [not_and_or] at h
+      rcases h with h | h
+      · unfold gap; nlinarith [mul_nonneg ha.le (mul_self_nonneg t'), mul_nonneg h0' (neg_pos.2 (not_le.1 h)).le]
+      · exact (gap_pos_of_disc_neg ha (not_le.1 h) t').le
+    · rw [gap_factor ha hDmax t']
+      have h1 : t' - (b + Real.sqrt (b * b - a * cmax)) / a ≤ 0 := by rw [← ht]; linarith
+      have h2 : 0 ≤ t' - (b - Real.sqrt (b * b - a * cmax)) / a := by
+        have : (b - Real.sqrt (b * b - a * cmax)) / a ≤ 0 := div_nonpos_of_nonpos_of_nonneg (by linarith) ha.le
+        linarith
+      have := mul_nonneg ha.le h2
+      nlinarith
+
+/-- non-vacuity: bond limits 1 and 2, separation 1.5 along `x`, moving apart at unit speed: the maximal
+length is reached after time 1/2 -/
+example : hardDipole 1 (-3/2) (9/4 - 1) (9/4 - 4) = 1/2 := by
+  simp only [hardDipole]
+  rw [if_neg (by norm_num)]
+  have : Real.sqrt ((-3/2 : ℝ) * (-3/2) - 1 * (9/4 - 4)) = 2 := by
+    rw [show (-3/2 : ℝ) * (-3/2) - 1 * (9/4 - 4) = 2 * 2 by norm_num]; exact Real.sqrt_mul_self (by norm_num)
+  rw [this]; norm_num
 
 
 end JF.C02
